@@ -49,6 +49,7 @@ func c09HistRun(c *ctx, in c09HistInput, d *Driver, impl *[]string) {
 	pos, known := 0, true
 	blocked := false
 	sawFault := false
+	var lastErr error // the non-EOF error latched by the history so far
 	var out []string
 	bad := false
 	buf := make([]byte, 70000)
@@ -88,6 +89,9 @@ func c09HistRun(c *ctx, in c09HistInput, d *Driver, impl *[]string) {
 		}
 		if e != nil && e != io.EOF {
 			sawFault = true
+			lastErr = e // latched until a Seek succeeds
+		} else if op.Kind == "s" {
+			lastErr = nil // Seek replaces bg.err by its own result: nil, or io.EOF at the end of a truncated source
 		}
 		// the property, judged on the implementation with the flat copy only
 		switch op.Kind {
@@ -125,7 +129,19 @@ func c09HistRun(c *ctx, in c09HistInput, d *Driver, impl *[]string) {
 		lc := bg.LastChunk()
 		out = append(out, fmt.Sprintf("%d:%s:%d.%d:%d.%d:%d:%d", len(got), cls, lc.Begin.File, lc.Begin.Block, lc.End.File, lc.End.Block, bg.BlockLen(), c02Hash(got)))
 	}
-	guardTimeout(c02OpTimeout, func() { bg.Close() })
+	var cerr error
+	if o := guardTimeout(c02OpTimeout, func() { cerr = bg.Close() }); o.timedOut || o.panicked {
+		res.fail("reader.hang.close.hist.rd1", "Close did not return", input)
+		return
+	}
+	if cerr == io.EOF || (cerr == nil) != (lastErr == nil) {
+		res.fail("reader.close.swallows-error", fmt.Sprintf("Close returned %v with %v latched by the last failing call", cerr, lastErr), input)
+		bad = true
+	}
+	ccls := c02ErrClass(cerr)
+	if ccls == "ueof" {
+		ccls = "err"
+	}
 	if bad {
 		return
 	}
@@ -142,7 +158,7 @@ func c09HistRun(c *ctx, in c09HistInput, d *Driver, impl *[]string) {
 	}
 	res.eval(fmt.Sprintf("h|%s|%s|%d|%d|%v|%d", f.modelBlocks(), c02OpsModel(ops), in.FailFrom, in.FailLen, in.Partial, in.TruncAt), strings.ContainsAny(orc, "xe"))
 	d.add("c09.hist %s %sooo %s", f.modelBlocks(), orc, c02OpsModel(ops))
-	*impl = append(*impl, strings.Join(out, ";")+fmt.Sprintf("|%d", len(orc)))
+	*impl = append(*impl, strings.Join(out, ";")+fmt.Sprintf("|%d|%s", len(orc), ccls))
 }
 
 func checkC09ReaderModel(c *ctx, n int) {
